@@ -3,6 +3,8 @@ set_option linter.unusedSimpArgs false
 
 /-! Helper lemmas for C17 (`Cpppo.Times`): decimal digits, the civil calendar, tokenisation of a
 rendering, zone tables. -/
+deriving instance DecidableEq for Except
+
 namespace Cpppo.Times
 
 /-! ### calendar -/
@@ -915,5 +917,483 @@ theorem micro_of_rounded (p : Nat) (μ bias : Int) (hp1 : 1 ≤ p) (hp : p ≤ 6
 
 theorem frac_lt (p : Nat) (hp : p ≤ 6) (s : Nat) (hs : s < 1000000) : s / pow10 (6 - p) < pow10 p := by
   rw [Nat.div_lt_iff_lt_mul (pow10_pos _), pow10_six p hp]; exact hs
+
+/-! ### durations -/
+
+/-- one `{n}{unit}` item of `duration._format` (omitted when `n = 0`) -/
+def durItem (n : Nat) (u : String) : List Char := if n = 0 then [] else natDigits n ++ u.toList
+
+theorem unitText_nat (n : Nat) (u : String) : unitText (n : Int) u = durItem n u := by
+  unfold unitText durItem intDigits
+  by_cases h : n = 0
+  · subst h; simp
+  · have h1 : ¬ ((n : Int) = 0) := by omega
+    have h2 : ¬ ((n : Int) < 0) := by omega
+    simp only [h, h1, h2, if_false, Int.toNat_natCast]
+
+/-- the sub-minute tail of `duration._format` -/
+def durTail (S s micro : Nat) : List Char :=
+  let isUs := micro % 1000 > 0
+  let isMs := micro / 1000 > 0
+  if isMs && (s > 0 || isUs) then
+    rstripZeros (natDigits s ++ '.' :: fixDigits 6 micro) ++ ['s']
+  else if micro > 0 || s > 0 then
+    (if s = 0 then [] else natDigits s ++ ['s'])
+      ++ (if isUs then natDigits micro ++ "us".toList
+          else if isMs then natDigits (micro / 1000) ++ "ms".toList else [])
+  else if micro = 0 && S = 0 then "0s".toList
+  else []
+
+/-- `durFormat` on a non-negative count, in natural-number arithmetic -/
+theorem durFormat_nat (cfg : DurCfg) (d : Nat) :
+    durFormat cfg (d : Int) =
+      let S := d / 1000000
+      let micro := d % 1000000
+      let ySecs := S % cfg.yr
+      let wSecs := ySecs % cfg.wk
+      let dSecs := wSecs % cfg.dy
+      let hSecs := dSecs % cfg.hr
+      durItem (S / cfg.yr) "y" ++ durItem (ySecs / cfg.wk) "w" ++ durItem (wSecs / cfg.dy) "d"
+        ++ durItem (dSecs / cfg.hr) "h" ++ durItem (hSecs / cfg.mn) "m" ++ durTail S (hSecs % cfg.mn) micro := by
+  unfold durFormat
+  have e1 : ((d : Int) / 1000000) = ((d / 1000000 : Nat) : Int) := by omega
+  have e2 : ((d : Int) % 1000000).toNat = d % 1000000 := by omega
+  simp only [e1, e2]
+  have e3 : (((d / 1000000 : Nat) : Int) / (cfg.yr : Int)) = (((d / 1000000) / cfg.yr : Nat) : Int) :=
+    (Int.natCast_ediv _ _).symm
+  have e4 : (((d / 1000000 : Nat) : Int) % (cfg.yr : Int)).toNat = (d / 1000000) % cfg.yr := by
+    rw [← Int.natCast_emod]; exact Int.toNat_natCast _
+  have e5 : (((d / 1000000 : Nat) : Int) = 0) = (d / 1000000 = 0) := by
+    apply propext; omega
+  simp only [e3, e4, unitText_nat, durTail, e5]
+
+/-- `text` parses (for every sufficient fuel) from state `(next, f)` to the fields `r` -/
+def Parses (tbl : UnitTable) (next : Nat) (f : DurFields) (text : List Char) (r : DurFields) : Prop :=
+  ∀ fuel, text.length + 1 ≤ fuel → durItems tbl fuel next f text = some r
+
+/-- the rest of the text does not continue a unit word -/
+def StartsOk (rest : List Char) : Prop := rest = [] ∨ ∃ c r, rest = c :: r ∧ isDigit c = true
+
+theorem Parses_nil (tbl : UnitTable) (next : Nat) (f : DurFields) : Parses tbl next f [] f := by
+  intro fuel hf
+  match fuel, hf with
+  | k + 1, _ => simp [durItems, dropWs]
+
+theorem spanDigits_append (ds rest : List Char) (hd : Digits ds)
+    (hr : ∀ c r, rest = c :: r → isDigit c = false) :
+    spanDigits (ds ++ rest) = (ds, rest) := by
+  induction ds with
+  | nil =>
+    cases rest with
+    | nil => rfl
+    | cons c r => simp [spanDigits, hr c r rfl]
+  | cons d ds ih =>
+    have h1 : isDigit d = true := hd d (by simp)
+    simp only [List.cons_append, spanDigits, h1, if_true]
+    rw [ih (fun c hc => hd c (by simp [hc]))]
+
+theorem spanAlpha_append (w rest : List Char) (hw : ∀ c ∈ w, isAlpha c = true)
+    (hr : ∀ c r, rest = c :: r → isAlpha c = false) :
+    spanAlpha (w ++ rest) = (w, rest) := by
+  induction w with
+  | nil =>
+    cases rest with
+    | nil => rfl
+    | cons c r => simp [spanAlpha, hr c r rfl]
+  | cons d ds ih =>
+    have h1 : isAlpha d = true := hw d (by simp)
+    simp only [List.cons_append, spanAlpha, h1, if_true]
+    rw [ih (fun c hc => hw c (by simp [hc]))]
+
+/-- a unit word: letters only -/
+def UnitWord (u : List Char) : Prop :=
+  u ≠ [] ∧ ∀ c ∈ u, isAlpha c = true ∧ isDigit c = false ∧ isWs c = false ∧ isDecPoint c = false
+
+theorem dropWs_of_head (c : Char) (r : List Char) (h : isWs c = false) : dropWs (c :: r) = c :: r := by
+  simp [dropWs, h]
+
+theorem StartsOk.notAlpha {rest : List Char} (h : StartsOk rest) :
+    ∀ c r, rest = c :: r → isAlpha c = false := by
+  intro c r hr
+  rcases h with h | ⟨c', r', h, hd⟩
+  · rw [h] at hr; exact absurd hr (by simp)
+  · rw [h] at hr; simp only [List.cons.injEq] at hr; rw [← hr.1]; exact (isDigit_props hd).2.2.1
+
+/-- one `{n}{unit}` item is consumed and sets its group -/
+theorem Parses_item (tbl : UnitTable) (next idx n : Nat) (f r : DurFields) (u rest : List Char)
+    (hu : UnitWord u) (hidx : unitIndex tbl u = some idx) (hnext : next ≤ idx) (hrest : StartsOk rest)
+    (h : Parses tbl (idx + 1) (f.set idx n) rest r) :
+    Parses tbl next f (natDigits n ++ (u ++ rest)) r := by
+  intro fuel hf
+  obtain ⟨hne, hchars⟩ := hu
+  have hdne := natDigits_ne_nil n
+  have hdig := natDigits_digits n
+  match fuel, hf with
+  | k + 1, hf =>
+    obtain ⟨d, ds, hd⟩ : ∃ d ds, natDigits n = d :: ds := by
+      cases hnd : natDigits n with
+      | nil => exact absurd hnd hdne
+      | cons d ds => exact ⟨d, ds, rfl⟩
+    obtain ⟨a, as, ha⟩ : ∃ a as, u = a :: as := by
+      cases hu' : u with
+      | nil => exact absurd hu' hne
+      | cons a as => exact ⟨a, as, rfl⟩
+    have hd1 : isDigit d = true := hdig d (by rw [hd]; simp)
+    have ha1 := hchars a (by rw [ha]; simp)
+    have hspan : spanDigits (natDigits n ++ (u ++ rest)) = (natDigits n, u ++ rest) :=
+      spanDigits_append _ _ hdig (by
+        intro c r' hc; rw [ha] at hc; simp only [List.cons_append, List.cons.injEq] at hc
+        rw [← hc.1]; exact ha1.2.1)
+    have hspanA : spanAlpha (u ++ rest) = (u, rest) :=
+      spanAlpha_append _ _ (fun c hc => (hchars c hc).1) hrest.notAlpha
+    have hlen : rest.length + 1 ≤ k := by
+      simp only [List.length_append] at hf
+      have : 1 ≤ (natDigits n).length := by rw [hd]; simp
+      omega
+    have hval : (digitsValAcc 0 (natDigits n)).getD 0 = n := by rw [digitsValAcc_natDigits]; rfl
+    have hdw : dropWs (natDigits n ++ (u ++ rest)) = natDigits n ++ (u ++ rest) := by
+      rw [hd, List.cons_append]; exact dropWs_of_head d _ (isDigit_props hd1).2.1
+    have hdw2 : dropWs (a :: (as ++ rest)) = a :: (as ++ rest) := dropWs_of_head a _ ha1.2.2.1
+    have hne1 : (natDigits n ++ (u ++ rest)).isEmpty = false := by rw [hd]; rfl
+    have hne2 : (natDigits n).isEmpty = false := by rw [hd]; rfl
+    unfold durItems
+    rw [hdw, hspan]
+    simp only [hne1, Bool.false_eq_true, if_false]
+    rw [ha, List.cons_append]
+    simp only [ha1.2.2.2, Bool.false_eq_true, if_false, hne2]
+    rw [hdw2, ← List.cons_append, ← ha, hspanA]
+    simp only [hidx]
+    rw [if_neg (by omega), hval]
+    exact h k hlen
+
+theorem StartsOk_digits (n : Nat) (rest : List Char) : StartsOk (natDigits n ++ rest) := by
+  right
+  cases hnd : natDigits n with
+  | nil => exact absurd hnd (natDigits_ne_nil n)
+  | cons d ds => exact ⟨d, ds ++ rest, rfl, natDigits_digits n d (by rw [hnd]; simp)⟩
+
+theorem StartsOk_item (n : Nat) (u : String) (rest : List Char) (h : StartsOk rest) :
+    StartsOk (durItem n u ++ rest) := by
+  unfold durItem
+  split
+  · simpa using h
+  · rw [List.append_assoc]; exact StartsOk_digits _ _
+
+/-- an optional item: nothing when `n = 0` (the group keeps its default 0) -/
+theorem Parses_opt (tbl : UnitTable) (next idx n : Nat) (f r : DurFields) (u : String) (rest : List Char)
+    (hu : UnitWord u.toList) (hidx : unitIndex tbl u.toList = some idx) (hnext : next ≤ idx)
+    (hrest : StartsOk rest) (hz : n = 0 → f.set idx n = f)
+    (h : ∀ next', next' ≤ idx + 1 → Parses tbl next' (f.set idx n) rest r) :
+    Parses tbl next f (durItem n u ++ rest) r := by
+  unfold durItem
+  split
+  · rename_i h0
+    rw [List.nil_append]
+    have := h next (by omega)
+    rw [hz h0] at this
+    exact this
+  · rw [List.append_assoc]
+    exact Parses_item tbl next idx n f r _ rest hu hidx hnext hrest (h _ (Nat.le_refl _))
+
+/-! #### the fractional form -/
+
+theorem dropWhile_append_of_ne_nil {α : Type} (p : α → Bool) (xs ys : List α)
+    (h : xs.dropWhile p ≠ []) : (xs ++ ys).dropWhile p = xs.dropWhile p ++ ys := by
+  induction xs with
+  | nil => exact absurd rfl h
+  | cons x xs ih =>
+    simp only [List.cons_append, List.dropWhile_cons] at h ⊢
+    split
+    · rename_i hp; rw [if_pos hp] at h; exact ih h
+    · rfl
+
+theorem rstripZeros_append (a b : List Char) (h : rstripZeros b ≠ []) :
+    rstripZeros (a ++ b) = a ++ rstripZeros b := by
+  unfold rstripZeros at h ⊢
+  rw [List.reverse_append, dropWhile_append_of_ne_nil _ _ _ (by
+    intro h'; rw [h'] at h; exact h rfl)]
+  simp
+
+theorem takeWhile_zero (l : List Char) :
+    l.takeWhile (· == '0') = List.replicate (l.takeWhile (· == '0')).length '0' := by
+  induction l with
+  | nil => rfl
+  | cons x xs ih =>
+    simp only [List.takeWhile_cons]
+    split
+    · rename_i hx
+      have : x = '0' := by simpa using hx
+      simp only [List.length_cons, List.replicate_succ, this]
+      rw [← ih]
+    · rfl
+
+/-- stripping and re-padding trailing zeros gives the string back -/
+theorem rstripZeros_pad (l : List Char) :
+    rstripZeros l ++ List.replicate (l.length - (rstripZeros l).length) '0' = l := by
+  unfold rstripZeros
+  have h := List.takeWhile_append_dropWhile (p := (· == '0')) (l := l.reverse)
+  have hlen : l.length = (l.reverse.takeWhile (· == '0')).length + (l.reverse.dropWhile (· == '0')).length := by
+    have := congrArg List.length h
+    simp only [List.length_append, List.length_reverse] at this
+    omega
+  have h2 : l = (l.reverse.dropWhile (· == '0')).reverse ++ (l.reverse.takeWhile (· == '0')).reverse := by
+    have := congrArg List.reverse h
+    simp only [List.reverse_append, List.reverse_reverse] at this
+    exact this.symm
+  rw [List.length_reverse]
+  have h3 : l.length - (l.reverse.dropWhile (· == '0')).length = (l.reverse.takeWhile (· == '0')).length := by omega
+  rw [h3]
+  conv => rhs; rw [h2]
+  congr 1
+  rw [takeWhile_zero l.reverse]
+  simp
+
+theorem rstripZeros_digits (l : List Char) (h : Digits l) : Digits (rstripZeros l) := by
+  intro c hc
+  apply h
+  have := rstripZeros_pad l
+  rw [← this]
+  exact List.mem_append_left _ hc
+
+/-- the stripped fraction digits of a non-zero `micro < 10^6` -/
+theorem stripped_fraction (micro : Nat) (h0 : 0 < micro) (h1 : micro < 1000000) :
+    rstripZeros (fixDigits 6 micro) ≠ [] ∧ Digits (rstripZeros (fixDigits 6 micro)) ∧
+    fractionMicros (some (rstripZeros (fixDigits 6 micro))) = micro := by
+  have hpad := rstripZeros_pad (fixDigits 6 micro)
+  rw [fixDigits_length] at hpad
+  have hval : digitsValAcc 0 (fixDigits 6 micro) = some micro := by
+    rw [digitsValAcc_fixDigits 6 micro 0 (by simpa [pow10] using h1)]; simp
+  refine ⟨?_, rstripZeros_digits _ (fixDigits_digits _ _), ?_⟩
+  · intro hnil
+    rw [hnil] at hpad
+    simp only [List.nil_append, List.length_nil, Nat.sub_zero] at hpad
+    rw [← hpad, digitsValAcc_zeros] at hval
+    simp only [Nat.zero_mul, Option.some.injEq] at hval
+    omega
+  · unfold fractionMicros
+    simp only []
+    rw [hpad, hval]; rfl
+
+/-- `"{s}.{frac}s"` as the last item -/
+theorem Parses_fraction (tbl : UnitTable) (next s : Nat) (f : DurFields) (fra : List Char)
+    (hs : unitIndex tbl ['s'] = some 5) (hnext : next ≤ 5) (hfra : fra ≠ []) (hdig : Digits fra) :
+    Parses tbl next f (natDigits s ++ '.' :: (fra ++ ['s'])) { f with s := s, sFra := some fra } := by
+  intro fuel hf
+  match fuel, hf with
+  | k + 1, _ =>
+    obtain ⟨d, ds, hd⟩ : ∃ d ds, natDigits s = d :: ds := by
+      cases hnd : natDigits s with
+      | nil => exact absurd hnd (natDigits_ne_nil s)
+      | cons d ds => exact ⟨d, ds, rfl⟩
+    have hd1 : isDigit d = true := natDigits_digits s d (by rw [hd]; simp)
+    have hdw : dropWs (natDigits s ++ '.' :: (fra ++ ['s'])) = natDigits s ++ '.' :: (fra ++ ['s']) := by
+      rw [hd, List.cons_append]; exact dropWs_of_head d _ (isDigit_props hd1).2.1
+    have hspan : spanDigits (natDigits s ++ '.' :: (fra ++ ['s'])) = (natDigits s, '.' :: (fra ++ ['s'])) :=
+      spanDigits_append _ _ (natDigits_digits s) (by
+        intro c r hc; simp only [List.cons.injEq] at hc; rw [← hc.1]; decide)
+    have hspan2 : spanDigits (fra ++ ['s']) = (fra, ['s']) :=
+      spanDigits_append _ _ hdig (by
+        intro c r hc; simp only [List.cons.injEq] at hc; rw [← hc.1]; decide)
+    have hne1 : (natDigits s ++ '.' :: (fra ++ ['s'])).isEmpty = false := by rw [hd]; rfl
+    have hne2 : fra.isEmpty = false := by
+      cases fra with
+      | nil => exact absurd rfl hfra
+      | cons _ _ => rfl
+    have hval : (digitsValAcc 0 (natDigits s)).getD 0 = s := by rw [digitsValAcc_natDigits]; rfl
+    unfold durItems
+    rw [hdw, hspan]
+    simp only [hne1, Bool.false_eq_true, if_false]
+    rw [if_pos (by decide)]
+    simp only [hspan2, hne2, hval]
+    have e1 : dropWs ['s'] = ['s'] := by decide
+    have e2 : spanAlpha ['s'] = (['s'], []) := by decide
+    rw [e1, e2]
+    simp only [hs]
+    rw [if_neg]
+    simp only [Bool.or_eq_true, decide_eq_true_eq, not_or]
+    refine ⟨⟨⟨by simp, by omega⟩, by simp⟩, by decide⟩
+
+/-- the unit words that `duration._format` writes close the groups they should
+(discharged for the table extracted from the live regular expression) -/
+structure UnitsOk (tbl : UnitTable) : Prop where
+  y : unitIndex tbl "y".toList = some 0
+  w : unitIndex tbl "w".toList = some 1
+  d : unitIndex tbl "d".toList = some 2
+  h : unitIndex tbl "h".toList = some 3
+  m : unitIndex tbl "m".toList = some 4
+  s : unitIndex tbl "s".toList = some 5
+  ms : unitIndex tbl "ms".toList = some 6
+  us : unitIndex tbl "us".toList = some 7
+
+theorem unitWord_of (u : String) (h : u.toList ≠ [] ∧ u.toList.all (fun c =>
+    isAlpha c && !isDigit c && !isWs c && !isDecPoint c) = true) : UnitWord u.toList := by
+  refine ⟨h.1, fun c hc => ?_⟩
+  have := List.all_eq_true.mp h.2 c hc
+  simp only [Bool.and_eq_true, Bool.not_eq_true'] at this
+  exact ⟨this.1.1.1, this.1.1.2, this.1.2, this.2⟩
+
+theorem uw_y : UnitWord "y".toList := unitWord_of _ (by decide)
+theorem uw_w : UnitWord "w".toList := unitWord_of _ (by decide)
+theorem uw_d : UnitWord "d".toList := unitWord_of _ (by decide)
+theorem uw_h : UnitWord "h".toList := unitWord_of _ (by decide)
+theorem uw_m : UnitWord "m".toList := unitWord_of _ (by decide)
+theorem uw_s : UnitWord "s".toList := unitWord_of _ (by decide)
+theorem uw_ms : UnitWord "ms".toList := unitWord_of _ (by decide)
+theorem uw_us : UnitWord "us".toList := unitWord_of _ (by decide)
+
+/-- the sub-minute tail parses to seconds `s` and sub-second groups worth `micro` µs -/
+theorem Parses_tail (tbl : UnitTable) (hU : UnitsOk tbl) (S s micro : Nat) (hm : micro < 1000000)
+    (Y W D H Mi : Nat) :
+    ∃ r, (∀ next, next ≤ 5 → Parses tbl next { y := Y, w := W, d := D, h := H, m := Mi } (durTail S s micro) r) ∧
+      r.y = Y ∧ r.w = W ∧ r.d = D ∧ r.h = H ∧ r.m = Mi ∧ r.s = s ∧
+      fractionMicros r.sFra + r.ms * 1000 + r.us + r.ns / 1000 = micro := by
+  unfold durTail
+  simp only []
+  split
+  · -- fractional form
+    rename_i hc
+    simp only [Bool.and_eq_true, Bool.or_eq_true, decide_eq_true_eq] at hc
+    obtain ⟨hne, hdig, hval⟩ := stripped_fraction micro (by omega) hm
+    have htext : rstripZeros (natDigits s ++ '.' :: fixDigits 6 micro) ++ ['s']
+        = natDigits s ++ '.' :: (rstripZeros (fixDigits 6 micro) ++ ['s']) := by
+      have : natDigits s ++ '.' :: fixDigits 6 micro = (natDigits s ++ ['.']) ++ fixDigits 6 micro := by simp
+      rw [this, rstripZeros_append _ _ hne]; simp
+    rw [htext]
+    refine ⟨_, fun next hnext => Parses_fraction tbl next s _ _ hU.s hnext hne hdig, rfl, rfl, rfl, rfl, rfl, rfl, ?_⟩
+    simp only [hval]; omega
+  · rename_i hc
+    split
+    · rename_i hc2
+      simp only [Bool.and_eq_true, Bool.or_eq_true, decide_eq_true_eq, not_and, not_or] at hc hc2
+      have hs : (if s = 0 then [] else natDigits s ++ ['s']) = durItem s "s" := rfl
+      rw [hs]
+      by_cases hus : micro % 1000 > 0
+      · simp only [hus, decide_true, if_true]
+        have e : natDigits micro ++ "us".toList = durItem micro "us" ++ [] := by
+          simp [durItem, show micro ≠ 0 by omega]
+        rw [e]
+        refine ⟨{ y := Y, w := W, d := D, h := H, m := Mi, s := s, us := micro }, ?_, rfl, rfl, rfl, rfl, rfl, rfl, ?_⟩
+        · intro next hnext
+          apply Parses_opt tbl next 5 s _ _ "s" _ uw_s hU.s hnext (StartsOk_item _ _ _ (Or.inl rfl))
+            (by intro h0; subst h0; rfl)
+          intro next' hn'
+          apply Parses_opt tbl next' 7 micro _ _ "us" _ uw_us hU.us (by omega) (Or.inl rfl)
+            (by intro h0; omega)
+          intro next'' _
+          exact Parses_nil _ _ _
+        · simp [fractionMicros]
+      · by_cases hms : micro / 1000 > 0
+        · simp only [hus, hms, decide_true, decide_false, if_true, if_false, Bool.false_eq_true]
+          have e : natDigits (micro / 1000) ++ "ms".toList = durItem (micro / 1000) "ms" ++ [] := by
+            simp [durItem, show micro / 1000 ≠ 0 by omega]
+          rw [e]
+          refine ⟨{ y := Y, w := W, d := D, h := H, m := Mi, s := s, ms := micro / 1000 }, ?_,
+            rfl, rfl, rfl, rfl, rfl, rfl, ?_⟩
+          · intro next hnext
+            apply Parses_opt tbl next 5 s _ _ "s" _ uw_s hU.s hnext (StartsOk_item _ _ _ (Or.inl rfl))
+              (by intro h0; subst h0; rfl)
+            intro next' hn'
+            apply Parses_opt tbl next' 6 (micro / 1000) _ _ "ms" _ uw_ms hU.ms (by omega) (Or.inl rfl)
+              (by intro h0; omega)
+            intro next'' _
+            exact Parses_nil _ _ _
+          · simp only [fractionMicros]; omega
+        · simp only [hus, hms, decide_false, if_false, Bool.false_eq_true, List.append_nil]
+          refine ⟨{ y := Y, w := W, d := D, h := H, m := Mi, s := s }, ?_, rfl, rfl, rfl, rfl, rfl, rfl, ?_⟩
+          · intro next hnext
+            have e : durItem s "s" = durItem s "s" ++ [] := by simp
+            rw [e]
+            apply Parses_opt tbl next 5 s _ _ "s" _ uw_s hU.s hnext (Or.inl rfl)
+              (by intro h0; subst h0; rfl)
+            intro next' _
+            exact Parses_nil _ _ _
+          · simp only [fractionMicros]; omega
+    · rename_i hc2
+      simp only [Bool.or_eq_true, decide_eq_true_eq, not_or] at hc2
+      have hs0 : s = 0 := by omega
+      have hm0 : micro = 0 := by omega
+      subst hs0; subst hm0
+      split
+      · refine ⟨{ y := Y, w := W, d := D, h := H, m := Mi }, ?_, rfl, rfl, rfl, rfl, rfl, rfl, by simp [fractionMicros]⟩
+        intro next hnext
+        have e : "0s".toList = natDigits 0 ++ ("s".toList ++ []) := by decide
+        rw [e]
+        exact Parses_item tbl next 5 0 _ _ _ [] uw_s hU.s hnext (Or.inl rfl) (Parses_nil _ _ _)
+      · exact ⟨_, fun _ _ => Parses_nil _ _ _, rfl, rfl, rfl, rfl, rfl, rfl, by simp [fractionMicros]⟩
+
+theorem rstripZeros_cons_ne_nil (c : Char) (l : List Char) (hc : c ≠ '0') : rstripZeros (c :: l) ≠ [] := by
+  intro hnil
+  have hpad := rstripZeros_pad (c :: l)
+  rw [hnil] at hpad
+  simp only [List.nil_append, List.length_nil, Nat.sub_zero, List.length_cons, List.replicate_succ,
+    List.cons.injEq] at hpad
+  exact hc hpad.1.symm
+
+theorem durTail_startsOk (S s m : Nat) : StartsOk (durTail S s m) := by
+  unfold durTail
+  simp only []
+  split
+  · have : natDigits s ++ '.' :: fixDigits 6 m = natDigits s ++ ('.' :: fixDigits 6 m) := rfl
+    rw [rstripZeros_append _ _ (rstripZeros_cons_ne_nil '.' _ (by decide)), List.append_assoc]
+    exact StartsOk_digits _ _
+  · split
+    · have hs : (if s = 0 then [] else natDigits s ++ ['s']) = durItem s "s" := rfl
+      rw [hs]
+      apply StartsOk_item
+      split
+      · exact StartsOk_digits _ _
+      · split
+        · exact StartsOk_digits _ _
+        · exact Or.inl rfl
+    · split
+      · exact Or.inr ⟨'0', ['s'], rfl, by decide⟩
+      · exact Or.inl rfl
+
+/-- `duration._format` of a non-negative duration parses to groups that add up to it -/
+theorem durItems_format (cfg : DurCfg) (tbl : UnitTable) (hU : UnitsOk tbl) (d : Nat) :
+    ∃ r, durItems tbl ((durFormat cfg (d : Int)).length + 1) 0 {} (durFormat cfg (d : Int)) = some r ∧
+      (r.s + cfg.mn * r.m + cfg.hr * r.h + cfg.dy * r.d + cfg.wk * r.w + cfg.yr * r.y) * 1000000
+        + (fractionMicros r.sFra + r.ms * 1000 + r.us + r.ns / 1000) = d := by
+  rw [durFormat_nat]
+  simp only []
+  generalize hS : d / 1000000 = S
+  generalize hmicro : d % 1000000 = micro
+  obtain ⟨r, hp, hy, hw, hd, hh, hm, hs, hmic⟩ := Parses_tail tbl hU S
+    (S % cfg.yr % cfg.wk % cfg.dy % cfg.hr % cfg.mn) micro (by omega)
+    (S / cfg.yr) (S % cfg.yr / cfg.wk) (S % cfg.yr % cfg.wk / cfg.dy)
+    (S % cfg.yr % cfg.wk % cfg.dy / cfg.hr) (S % cfg.yr % cfg.wk % cfg.dy % cfg.hr / cfg.mn)
+  have htl := durTail_startsOk S (S % cfg.yr % cfg.wk % cfg.dy % cfg.hr % cfg.mn) micro
+  refine ⟨r, ?_, ?_⟩
+  · apply (?_ : Parses tbl 0 {} _ r) _ (Nat.le_refl _)
+    simp only [List.append_assoc]
+    apply Parses_opt tbl 0 0 _ _ _ "y" _ uw_y hU.y (Nat.le_refl _)
+      (StartsOk_item _ _ _ (StartsOk_item _ _ _ (StartsOk_item _ _ _ (StartsOk_item _ _ _ htl))))
+      (by intro h0; rw [h0]; rfl)
+    intro n1 h1
+    apply Parses_opt tbl n1 1 _ _ _ "w" _ uw_w hU.w h1
+      (StartsOk_item _ _ _ (StartsOk_item _ _ _ (StartsOk_item _ _ _ htl)))
+      (by intro h0; rw [h0]; rfl)
+    intro n2 h2
+    apply Parses_opt tbl n2 2 _ _ _ "d" _ uw_d hU.d h2
+      (StartsOk_item _ _ _ (StartsOk_item _ _ _ htl))
+      (by intro h0; rw [h0]; rfl)
+    intro n3 h3
+    apply Parses_opt tbl n3 3 _ _ _ "h" _ uw_h hU.h h3 (StartsOk_item _ _ _ htl)
+      (by intro h0; rw [h0]; rfl)
+    intro n4 h4
+    apply Parses_opt tbl n4 4 _ _ _ "m" _ uw_m hU.m h4 htl
+      (by intro h0; rw [h0]; rfl)
+    intro n5 h5
+    exact hp n5 h5
+  · rw [hy, hw, hd, hh, hm, hs, hmic]
+    have e1 := Nat.div_add_mod S cfg.yr
+    have e2 := Nat.div_add_mod (S % cfg.yr) cfg.wk
+    have e3 := Nat.div_add_mod (S % cfg.yr % cfg.wk) cfg.dy
+    have e4 := Nat.div_add_mod (S % cfg.yr % cfg.wk % cfg.dy) cfg.hr
+    have e5 := Nat.div_add_mod (S % cfg.yr % cfg.wk % cfg.dy % cfg.hr) cfg.mn
+    have e6 := Nat.div_add_mod d 1000000
+    rw [hS, hmicro] at e6
+    omega
+
 
 end Cpppo.Times
